@@ -133,6 +133,9 @@ def _wrapped_ghost_init(st):
 
 
 c.ghost_init = _wrapped_ghost_init
+# a member is run through the body contract E9, whether it is an atomic job or a nested scheduler
+# (Scheduler.co_run refines it: it returns or raises, DESIGN 6/C10)
+c.dispatch_override = {'co_run': 'AbstractJob.co_run'}
 c.requires('job-is-a-job', lambda c: And(isa['AbstractJob'](c.a.job), isa['Window'](c.a.self),
                                          isa['Queue'](c.pre.f('queue', c.a.self))))
 
